@@ -14,6 +14,7 @@ If a formula is missing from the source (pinned tree: `cubic_/quartic_/quintic_e
 -/
 set_option autoImplicit false   -- a formula missing from the source must be an error, not an auto-bound variable
 set_option linter.unusedTactic false
+set_option linter.unusedSimpArgs false   -- the x-source proofs list every combinator the translator may emit
 set_option linter.unreachableTactic false
 namespace DadiVerif
 open Gen.Extrap Extrap Finset Polynomial
@@ -315,10 +316,121 @@ theorem C07_glue :
     formulaTable = [(2, "linear_extrap", 2), (3, "quadratic_extrap", 3), (4, "cubic_extrap", 4),
                     (5, "quartic_extrap", 5), (6, "quintic_extrap", 6)]
     ∧ identityCounts = [1] ∧ fallbackMinLen = 1 ∧ defaultFailMag = 10
-    ∧ resultsPerGridShapeOk = true ∧ fallbackShapeOk = true ∧ logWrapShapeOk = true := by
+    ∧ resultsPerGridShapeOk = true ∧ fallbackShapeOk = true ∧ logWrapShapeOk = true ∧ xSourceShapeOk = true := by
+  decide
+
+/-- `make_extrap_log_func` hands its model and its `extrap_x_l` on unchanged, switches the log mode on with the constant
+    `True`, and leaves `fail_mag` at ten decades (left at the default, or its own argument whose default is 10) -/
+theorem C07_log_wrapper :
+    logWrapperBinding.lookup "func" = some "arg:func"
+    ∧ (logWrapperBinding.lookup "extrap_x_l" = some "arg:extrap_x_l=None" ∨ logWrapperBinding.lookup "extrap_x_l" = some "arg:extrap_x_l")
+    ∧ logWrapperBinding.lookup "extrap_log" = some "const:True"
+    ∧ (logWrapperBinding.lookup "fail_mag" = some "const:10" ∨ logWrapperBinding.lookup "fail_mag" = some "arg:fail_mag=10")
+    ∧ logWrapperBinding.length = 4 := by
   decide
 
 end Field
+
+section XSource
+/-! Which x values the extrapolation runs in.  `xSelect` is generated from the statements of `extrap_func` that assign
+`x_l`; `xsFor`, `xdispatch` (Model/Extrap.lean) are what the driver executes.  The rule, for every number of grids, for
+ndarray results (`XAttr.missing`), Spectrum results with their own `extrap_x` (`XAttr.val`) and Spectrum results whose
+`extrap_x` is None (`XAttr.pyNone`): an explicit `extrap_x_l` always wins; without it the attributes of the results are
+used; without it and without attributes the documented ValueError is raised. -/
+variable {α : Type}
+
+/-- an explicit `extrap_x_l` decides the x values whatever the results carry -/
+theorem C07_xsource_explicit (L : List α) (rs : List (XAttr α)) :
+    xSelect (some L) rs = .ok (XVal.list (L.map some)) := by
+  by_cases h : rs.any XAttr.isMissing = true <;>
+    simp [xSelect, xIf, xTry, xSeq, xSkip, xRaise, xAssignExplicit, xAssignAttrs, xTruthy, h]
+
+/-- without an explicit list the `.extrap_x` of the results are used (one per result, in the order of the grid list) -/
+theorem C07_xsource_results (rs : List (XAttr α)) (h : ∀ r ∈ rs, r.isMissing = false) :
+    xSelect none rs = .ok (XVal.list (rs.map XAttr.toOpt)) := by
+  have h' : rs.any XAttr.isMissing = false := by
+    rw [List.any_eq_false]; intro r hr; simp [h r hr]
+  simp [xSelect, xIf, xTry, xSeq, xSkip, xRaise, xAssignExplicit, xAssignAttrs, xTruthy, h']
+
+/-- without an explicit list and with a result that has no `.extrap_x` (plain arrays): the documented ValueError -/
+theorem C07_xsource_missing (rs : List (XAttr α)) (h : ∃ r ∈ rs, r.isMissing = true) :
+    xSelect none rs = .error "ValueError:no_extrap_x" := by
+  have h' : rs.any XAttr.isMissing = true := by
+    rw [List.any_eq_true]; exact h
+  simp [xSelect, xIf, xTry, xSeq, xSkip, xRaise, xAssignExplicit, xAssignAttrs, xTruthy, h']
+
+example : xSelect (some [(1 : ℚ), 2]) [.val 5, .val 7] = .ok (XVal.list [some 1, some 2]) := C07_xsource_explicit _ _
+example : xSelect (none : Option (List ℚ)) [.val 5, .pyNone] = .ok (XVal.list [some 5, none]) :=
+  C07_xsource_results _ (by simp [XAttr.isMissing])
+example : xSelect (none : Option (List ℚ)) [.val 5, .missing] = .error "ValueError:no_extrap_x" :=
+  C07_xsource_missing _ ⟨.missing, by simp, rfl⟩
+
+/-- the counts whose branch reads `x_l` are exactly 2…6 -/
+theorem C07_usesX (k : ℕ) : usesX k = true ↔ 2 ≤ k ∧ k ≤ 6 := by
+  simp [usesX, formulaTable]; omega
+
+/-- for every number of grids the pipeline works with the explicit list when one is given … -/
+theorem C07_xs_explicit (L : List α) (rs : List (XAttr α)) (k : ℕ) : xsFor (some L) rs k = .ok L := by
+  have hall : (L.map some).all Option.isSome = true := by simp
+  have hfm : (L.map some).filterMap id = L := by simp [List.filterMap_map]
+  unfold xsFor
+  rw [C07_xsource_explicit]
+  by_cases hk : usesX k = true <;> simp [hk, xValues, xLoose, hall, hfm]
+
+/-- … and otherwise with the `extrap_x` values of the results … -/
+theorem C07_xs_results (xs : List α) (k : ℕ) : xsFor none (xs.map XAttr.val) k = .ok xs := by
+  have hsel := C07_xsource_results (xs.map XAttr.val) (by simp [XAttr.isMissing])
+  have hmap : (xs.map XAttr.val).map XAttr.toOpt = xs.map some := by simp [XAttr.toOpt]
+  have hall : (xs.map some).all Option.isSome = true := by simp
+  have hfm : (xs.map some).filterMap id = xs := by simp [List.filterMap_map]
+  unfold xsFor
+  rw [hsel, hmap]
+  by_cases hk : usesX k = true <;> simp [hk, xValues, xLoose, hall, hfm]
+
+/-- … a Spectrum whose `extrap_x` is None cannot be extrapolated with 2…6 grids unless an explicit list is given
+    (TypeError from the arithmetic with None), and plain arrays without an explicit list are refused for every count -/
+theorem C07_xs_refused (rs : List (XAttr α)) (k : ℕ) :
+    ((∃ r ∈ rs, r.isMissing = true) → xsFor none rs k = .error "ValueError:no_extrap_x")
+    ∧ ((∀ r ∈ rs, r.isMissing = false) → (∃ r ∈ rs, r.toOpt = none) → 2 ≤ k → k ≤ 6 →
+        xsFor none rs k = .error "TypeError:None") := by
+  constructor
+  · intro h
+    unfold xsFor
+    rw [C07_xsource_missing rs h]
+  · intro hm hn h2 h6
+    have hk : usesX k = true := (C07_usesX k).mpr ⟨h2, h6⟩
+    have hall : (rs.map XAttr.toOpt).all Option.isSome = false := by
+      rw [List.all_eq_false]
+      obtain ⟨r, hr, hnone⟩ := hn
+      exact ⟨r.toOpt, List.mem_map_of_mem hr, by simp [hnone]⟩
+    unfold xsFor
+    rw [C07_xsource_results rs hm]
+    simp [hk, xValues, hall]
+
+end XSource
+
+section XPipeline
+variable {K : Type} [Field K]
+
+/-- with an explicit `extrap_x_l` the whole entry pipeline is the dispatch in those x values (so `C07_exact_k`,
+    `C07_perm_k`, `C07_log_k` apply to them), also when the results are Spectra that carry another `extrap_x` -/
+theorem C07_xdispatch_explicit (L : List K) (rs : List (XAttr K)) (ys : List K) :
+    xdispatch (some L) rs ys = dispatch ys L := by
+  unfold xdispatch
+  rw [C07_xs_explicit]
+
+/-- without it the pipeline is the dispatch in the `extrap_x` values of the results -/
+theorem C07_xdispatch_results (xs ys : List K) :
+    xdispatch none (xs.map XAttr.val) ys = dispatch ys xs := by
+  unfold xdispatch
+  rw [C07_xs_results]
+
+/-- y = x² + 2x + 5 in the explicit x values 1, 2, 3; the Spectra are tagged 10, 20, 30: the answer is 5 -/
+example : xdispatch (some [(1 : ℚ), 2, 3]) [.val 10, .val 20, .val 30] [8, 13, 20] = .ok 5 := by
+  rw [C07_xdispatch_explicit]
+  norm_num [dispatch, quadratic_extrapL, quadratic_extrap]
+
+end XPipeline
 
 section Log
 
